@@ -6,7 +6,9 @@ import (
 	"math"
 
 	"github.com/reactivego/ivg"
+	"github.com/reactivego/ivg/decode"
 	"github.com/reactivego/ivg/render"
+	"verif/gen"
 	"verif/mc"
 	"verif/rec"
 	"verif/ref"
@@ -40,6 +42,7 @@ type c06Case struct {
 	// Prefix: operations between StartPath and the judged arc. 0 none; 1 a proper arc; 2 a proper
 	// arc then a zero-radius arc; 3 a cubic then a zero-radius arc. They end at (X1,Y1).
 	Prefix int    `json:"prefix,omitempty"`
+	Flags  []int  `json:"decoded_flags,omitempty"` // [value, width, relative]: the decoded-flags route
 	Desc   string `json:"desc,omitempty"`
 }
 
@@ -47,13 +50,17 @@ func init() {
 	mc.Register(&mc.Check{
 		ID:    "C06",
 		Level: "exploration",
-		Rule: "engine P: radii {0,0.5,1,3,20,-3}^2 x rotation {0,1/24,1/8,1/4,0.3,0.5,0.9,-0.1,1.25} x 4 flag combinations x start and end points from a 7x7 (thorough 12x12) lattice plus three end points 1/64 away from the start (start != end) x {absolute, relative} x 4 viewBoxes x 3 rectangles (non-uniform scale, off-origin), each driven into a real Renderer over a recording rasteriser; for two lattice columns of end points the arc is also judged as a later operation of its path (after a proper arc; after a proper arc and a zero-radius arc; after a cubic and a zero-radius arc). " +
+		Rule: "engine P: radii {0,0.5,1,3,20,-3}^2 x rotation {0,1/24,1/8,1/4,0.3,0.5,0.9,-0.1,1.25} x 4 flag combinations x start and end points from a 7x7 (thorough 12x12) lattice plus three end points 1/64 away from the start and six end points a diameter away along the rotated axes (+- one float32 step; start != end) x {absolute, relative} x 4 viewBoxes x 3 rectangles (non-uniform scale, off-origin), each driven into a real Renderer over a recording rasteriser; plus 21 flags naturals (reserved bits set) x every width x {absolute, relative} through the decoder against the direct call; for two lattice columns of end points the arc is also judged as a later operation of its path (after a proper arc; after a proper arc and a zero-radius arc; after a cubic and a zero-radius arc). " +
 			"Oracle: zero radius => one LineTo to the mapped end point; else 1..4 CubeTo ending at the mapped end point; every cubic's end point and its points at t=1/4,1/2,3/4, un-mapped to viewBox space, lie on the ellipse given by an independent SVG F.6.5 centre computation (radii scaled up when too small); the accumulated sweep has the sign of the sweep flag and exceeds a half turn iff large-arc. " +
 			"distinct = (number of cubics, scaled-up, flags, zero radius); non-trivial = arc emitted as cubics",
 		Assumptions: []string{"configurations within 1e-6 of a half turn are skipped and counted (flags do not determine the arc there)", "tolerances: 1e-4 R for end points, 5e-4 R for interior points (standard 4/3 tan(theta/4) construction, <= 90 degree pieces)"},
-		Units:       func(tier string) int { return len(c06Radii) * len(c06Radii) * len(c06Rot) },
+		Units:       func(tier string) int { return len(c06Radii)*len(c06Radii)*len(c06Rot) + 1 },
 		Run: func(w *mc.W, u int) {
 			nr := len(c06Radii)
+			if u == nr*nr*len(c06Rot) {
+				(&c06State{w: w}).decodedFlags(nil)
+				return
+			}
 			rx, ry, rot := c06Radii[u/(nr*len(c06Rot))], c06Radii[u/len(c06Rot)%nr], c06Rot[u%len(c06Rot)]
 			pts := c06Lattice(w.Thorough)
 			st := &c06State{w: w}
@@ -62,6 +69,16 @@ func init() {
 					// end points: the lattice, plus three points 1/64 away from the start (near-complete
 					// ellipses with the large-arc flag, slivers without; sub-pixel chords at small scales)
 					ends := append(append(st.ends[:0], pts...), [2]float32{p1[0] + 1.0/64, p1[1]}, [2]float32{p1[0], p1[1] - 1.0/64}, [2]float32{p1[0] - 1.0/64, p1[1] + 1.0/64})
+					// chords that are exactly a diameter along a (rotated) axis, give or take one float32
+					// step: the radii check lands on 1 or an ulp beside it. The centre is ill-conditioned
+					// there (not judged), but the arc must still be emitted, finite, and end at its end point
+					if rx != 0 && ry != 0 {
+						co, si := math.Cos(2*math.Pi*float64(rot)), math.Sin(2*math.Pi*float64(rot))
+						for _, d := range [][2]float64{{2 * math.Abs(float64(rx)) * co, 2 * math.Abs(float64(rx)) * si}, {-2 * math.Abs(float64(ry)) * si, 2 * math.Abs(float64(ry)) * co}} {
+							ex, ey := p1[0]+float32(d[0]), p1[1]+float32(d[1])
+							ends = append(ends, [2]float32{ex, ey}, [2]float32{math.Nextafter32(ex, 1e9), ey}, [2]float32{ex, math.Nextafter32(ey, -1e9)})
+						}
+					}
 					st.ends = ends
 					for _, p2 := range ends {
 						if p1 == p2 {
@@ -99,6 +116,10 @@ func init() {
 			if err := unmarshalCase(data, &cs); err != nil {
 				return err
 			}
+			if cs.Flags != nil {
+				(&c06State{w: w}).decodedFlags(cs.Flags)
+				return nil
+			}
 			(&c06State{w: w}).check(&cs)
 			return nil
 		},
@@ -110,6 +131,69 @@ type c06State struct {
 	w    *mc.W
 	ends [][2]float32
 	ras  rec.Raster
+}
+
+// decodedFlags: the flags reach the Renderer through the decoder as a natural number of which
+// bit 0 is large-arc and bit 1 is sweep; any other bit is reserved and selects nothing. Every
+// flags value of a boundary set in every natural width, absolute and relative: the decoded
+// stream must drive the rasteriser exactly as the direct call with (bit 0, bit 1) does.
+func (st *c06State) decodedFlags(only []int) {
+	w := st.w
+	vals := []uint32{0, 1, 2, 3, 4, 5, 6, 7, 8, 0x41, 0x42, 0x7c, 0x7d, 0x2001, 0x2002, 0x3ffc, 0x3ffd, 1<<20 | 1, 1<<29 | 2, 1<<30 - 4, 1<<30 - 3}
+	rect := c05Rects[1]
+	for _, v := range vals {
+		for _, wd := range []int{1, 2, 4} {
+			if wd == 1 && v >= 1<<7 || wd == 2 && v >= 1<<14 {
+				continue
+			}
+			for rel := 0; rel < 2; rel++ {
+				if only != nil && (int(v) != only[0] || wd != only[1] || rel != only[2]) {
+					continue
+				}
+				w.Eval()
+				b := append([]byte{}, gen.Magic...)
+				b = append(b, 0x00, 0xc0)
+				b = gen.AppendNum(b, 1, 64-9) // StartPath(-9, 3)
+				b = gen.AppendNum(b, 1, 64+3)
+				b = append(b, byte(0xc0+0x10*rel))
+				b = gen.AppendNum(b, 1, 64+7) // rx 7, ry 4, rotation 15/120
+				b = gen.AppendNum(b, 1, 64+4)
+				b = gen.AppendNum(b, 1, 15)
+				b = gen.AppendNum(b, wd, v)
+				b = gen.AppendNum(b, 1, 64+5) // to (5, -2) resp. by (5, -2)
+				b = gen.AppendNum(b, 1, 64-2)
+				b = append(b, 0xe1)
+				var z1, z2 render.Renderer
+				var r1, r2 rec.Raster
+				z1.SetRasterizer(&r1, rect)
+				z2.SetRasterizer(&r2, rect)
+				cs := c06Case{Flags: []int{int(v), wd, rel}}
+				if err := decode.Decode(&z1, b); err != nil {
+					w.Fail("decoded-flags:rejected", fmt.Sprintf("stream %x (arc flags %#x in %d bytes) rejected: %v", b, v, wd, err), cs)
+					continue
+				}
+				z2.Reset(ivg.DefaultViewBox, ivg.DefaultPalette)
+				z2.StartPath(0, -9, 3)
+				if rel == 1 {
+					z2.RelArcTo(7, 4, 0.125, v&1 != 0, v&2 != 0, 5, -2)
+				} else {
+					z2.AbsArcTo(7, 4, 0.125, v&1 != 0, v&2 != 0, 5, -2)
+				}
+				z2.ClosePathEndPath()
+				same := len(r1.Calls) == len(r2.Calls)
+				for i := 0; same && i < len(r1.Calls); i++ {
+					same = r1.Calls[i].EqualGeom(&r2.Calls[i])
+				}
+				if !same {
+					w.Fail("decoded-flags:differs", fmt.Sprintf("arc flags %#x in %d bytes (large-arc %v, sweep %v): decoded stream %x drives the rasteriser with %s, the direct call with %s", v, wd, v&1 != 0, v&2 != 0, b, rec.RCallsString(r1.Calls), rec.RCallsString(r2.Calls)), cs)
+				}
+				h := mc.NewHasher()
+				h.Str("decoded-flags")
+				h.Byte(byte(v & 3))
+				w.Outcome(h.Sum(), true)
+			}
+		}
+	}
 }
 
 func cubicAt(p0x, p0y float64, c *rec.RCall, t float64) (float64, float64) {
@@ -184,7 +268,7 @@ func (st *c06State) check(cs *c06Case) {
 			fail("zero-radius:not-a-line", "an arc with a zero radius must be one straight line")
 			return
 		}
-		if math.Abs(float64(c.A[0])-endX) > 1e-4*extent || math.Abs(float64(c.A[1])-endY) > 1e-4*extent {
+		if !(math.Abs(float64(c.A[0])-endX) <= 1e-4*extent && math.Abs(float64(c.A[1])-endY) <= 1e-4*extent) {
 			fail("zero-radius:endpoint-unmapped", fmt.Sprintf("line should end at the mapped end point (%g,%g)", endX, endY))
 			return
 		}
@@ -202,8 +286,16 @@ func (st *c06State) check(cs *c06Case) {
 			return
 		}
 	}
+	for i := range calls {
+		for _, v := range calls[i].A {
+			if math.IsNaN(float64(v)) || math.IsInf(float64(v), 0) {
+				fail("non-finite", "an arc with finite moderate parameters produced a non-finite coordinate")
+				return
+			}
+		}
+	}
 	last := &calls[len(calls)-1]
-	if math.Abs(float64(last.A[4])-endX) > 1e-4*extent || math.Abs(float64(last.A[5])-endY) > 1e-4*extent {
+	if !(math.Abs(float64(last.A[4])-endX) <= 1e-4*extent && math.Abs(float64(last.A[5])-endY) <= 1e-4*extent) {
 		fail("endpoint", fmt.Sprintf("last cubic should end at the mapped end point (%g,%g)", endX, endY))
 		return
 	}
@@ -271,7 +363,7 @@ func (st *c06State) check(cs *c06Case) {
 		px, py = float64(c.A[4]), float64(c.A[5])
 	}
 	// direction and extent
-	if cs.SW != (sum > 0) {
+	if math.IsNaN(sum) || cs.SW != (sum > 0) {
 		fail("sweep-direction", fmt.Sprintf("accumulated sweep %.4f rad contradicts sweep flag %v", sum, cs.SW))
 		return
 	}
@@ -281,7 +373,7 @@ func (st *c06State) check(cs *c06Case) {
 			return
 		}
 	}
-	if math.Abs(sum-arc.DTheta) > 1e-3+2*cond {
+	if !(math.Abs(sum-arc.DTheta) <= 1e-3+2*cond) {
 		fail("sweep-extent", fmt.Sprintf("accumulated sweep %.4f rad, reference %.4f rad", sum, arc.DTheta))
 		return
 	}
